@@ -23,6 +23,12 @@ func init() {
 
 func c10() []*Ob {
 	return []*Ob{
+		{Prop: "C10", ID: "C10.12", Engine: "TYPESTATE(use after put)", Floor: 5,
+			Desc:  "what is stored is what this bulk compressed: an object handed back to a pool is not used again by the same function, and a helper that hands its parameter back makes its caller's later uses (and the caller's own deferred hand-back: a second Put of the same object) uses after put (shared rule with C09.9) — a compressor put into the pool twice is handed to two parallel bulks, and one of them stores the other's documents under its own count",
+			Check: shared("C09.9")},
+		{Prop: "C10", ID: "C10.13", Engine: "SENTINEL(limit vs constant)", Floor: 1,
+			Desc:  "a drift limit of zero means no drift: documentDelayed compares drift and futureDrift with the delay only, never with a constant — guarding a comparison with 'limit > 0' turns a configured 0 into 'check disabled', and a document dated in the future keeps its own time in the id",
+			Check: func(c *Ctx) { limitHasOneMeaning(c) }},
 		{Prop: "C10", ID: "C10.11", Engine: "WHO-MAY-CALL(truncating readers)", Floor: 1,
 			Desc: "the request body is read to its end: on the ingest path (packages proxyapi and proxy/bulk) the body is not wrapped in a reader that ends early without an error — no (*gzip.Reader).Multistream(false) (a gzip body of several members, which RFC 1952 defines as one stream, would end after the first member), no io.LimitReader / io.LimitedReader / io.NewSectionReader / io.CopyN — the documents behind the cut are never seen, and the bulk is answered 200 with fewer items and no error",
 			Check: func(c *Ctx) {
